@@ -31,6 +31,10 @@ INSTS = [
             ((0, 1, 2), (0, 1, 2))),
     # 2-agent, R = 2
     I.make2(2, 2, (((1,), (2,)), ((1,), (2,))), (((2,), (1,)), ((1, 2),)), ((0, 1), (1, 1))),
+    # R = 3 with a greedy rank whose optimum is 0 strictly inside the profile
+    # (every second choice has capacity 0): best profile <1 0 1>
+    I.make3(2, 3, 1, (((1,), (2,), (3,)), ((1,), (2,), (3,))), (1, 1, 1),
+            (((1,), (2,)),), ((0, 1), (0, 0), (0, 2)), ((0, 2, 3),)),
     # infeasible without faults (lower quota cannot be met)
     I.make3(1, 2, 1, (((1,),),), (1, 1), (((1,),),), ((0, 1), (1, 1)), ((0, 1, 1),)),
 ]
@@ -202,7 +206,7 @@ def main(tier):
     for ii in range(len(INSTS)):
         for crits in seqs:
             for tl in (None, T):
-                two = (tier == "thorough") or (crits in two_quick and ii in (0, 1))
+                two = (tier == "thorough") or (crits in two_quick and ii in (0, 1, 3))
                 items.append((ii, crits, tl, two))
     # heavy items first
     items.sort(key=lambda it: (not it[3], -len(it[1])))
